@@ -1042,10 +1042,163 @@ impl SubCheckT for ManyQueries {
     }
 }
 
+// ---------------------------------------------------------------------------
+// one diagram with tens of thousands to 130 000 nodes, queried repeatedly
+// ---------------------------------------------------------------------------
+
+#[derive(Clone, Debug, Serialize, Deserialize)]
+pub struct LargeCase {
+    /// number of pairs: the diagram of OR_i (x_i & y_pi(i)) under the order x.., y.. has about 2^(m+1) nodes
+    pub m: u8,
+    pub seed: u64,
+    /// conjunction of disjunctions instead
+    pub dual: bool,
+}
+
+pub struct LargeDiagrams;
+
+pub fn run_large(case: &LargeCase, st: &mut Stats) -> CaseResult {
+    const P: u128 = primes::U64_LARGEST;
+    let m = (case.m as usize).clamp(8, 16);
+    let nv = 2 * m;
+    let pi = crate::big::permutation(case.seed ^ 0x9A1, m);
+    let pol = |v: usize| splitmix(case.seed ^ 0x70 ^ (v as u64) << 8) & 1 == 1;
+    fn make<'a>(b: &'a RobddBuilder<'a, rsdd::builder::cache::AllIteTable<BddPtr<'a>>>, m: usize, pi: &[usize], pol: &dyn Fn(usize) -> bool, dual: bool) -> BddPtr<'a> {
+        let mut f = if dual { b.true_ptr() } else { b.false_ptr() };
+        // pairs are added from the deepest x upwards so that every step works on the top of the diagram
+        for i in (0..m).rev() {
+            let x = b.var(VarLabel::new_usize(i), pol(i));
+            let y = b.var(VarLabel::new_usize(m + pi[i]), pol(m + pi[i]));
+            f = if dual { b.and(b.or(x, y), f) } else { b.or(b.and(x, y), f) };
+        }
+        f
+    }
+    let b = RobddBuilder::<rsdd::builder::cache::AllIteTable<BddPtr>>::new(VarOrder::linear_order(nv));
+    let f = make(&b, m, &pi, &pol, case.dual);
+    // own evaluation of the intended function; the diagram is read back on probes (a mismatch is C01's concern)
+    let intended = |a: &[bool]| -> bool {
+        let lit = |v: usize| a[v] == pol(v);
+        if case.dual {
+            (0..m).all(|i| lit(i) || lit(m + pi[i]))
+        } else {
+            (0..m).any(|i| lit(i) && lit(m + pi[i]))
+        }
+    };
+    let probes: Vec<Vec<bool>> = (0..24u64)
+        .map(|k| {
+            let mut a = crate::big::assignment(case.seed ^ 0xA55, k, nv);
+            if k % 3 == 0 {
+                // a near miss: every pair broken (or satisfied) except possibly one
+                for i in 0..m {
+                    a[i] = pol(i) == case.dual;
+                    a[m + pi[i]] = pol(m + pi[i]) != case.dual;
+                }
+                let j = (splitmix(case.seed ^ k) as usize) % m;
+                a[j] = !a[j];
+            }
+            a
+        })
+        .collect();
+    if probes.iter().any(|a| crate::big::bdd_eval(f, a) != intended(a)) {
+        st.bump("large.builder_made_another_function(C01's concern)");
+        return Ok(());
+    }
+    let weights = |salt: u64| -> Vec<(u128, u128)> {
+        (0..nv)
+            .map(|v| {
+                let x = splitmix(case.seed ^ salt ^ (v as u64).wrapping_mul(0xD134_2543_DE82_EF95)) as u128 % P;
+                ((P + 1 - x) % P, x)
+            })
+            .collect()
+    };
+    let closed = |w: &Vec<(u128, u128)>| -> u128 {
+        // Pr[OR (x & y)] = 1 - prod (1 - p q); Pr[AND (x | y)] = prod (1 - (1-p)(1-q)), p = weight of the literal's own side
+        let own = |v: usize| if pol(v) { w[v].1 } else { w[v].0 };
+        let mut prod = 1u128;
+        for i in 0..m {
+            let (p, q) = (own(i), own(m + pi[i]));
+            let term = if case.dual { (P + 1 - crate::oracle::mulmod((P + 1 - p) % P, (P + 1 - q) % P, P)) % P } else { (P + 1 - crate::oracle::mulmod(p, q, P)) % P };
+            prod = crate::oracle::mulmod(prod, term, P);
+        }
+        if case.dual {
+            prod
+        } else {
+            (P + 1 - prod) % P
+        }
+    };
+    let params = |w: &Vec<(u128, u128)>| -> WmcParams<FiniteField<P>> {
+        let mut p = WmcParams::<FiniteField<P>>::default();
+        for (v, (l, h)) in w.iter().enumerate() {
+            p.set_weight(VarLabel::new_usize(v), FiniteField::new(*l), FiniteField::new(*h));
+        }
+        p
+    };
+    let scratch = |what: &str, d: BddPtr| -> CaseResult {
+        for nd in bdd_nodes(d) {
+            ensure!(BddPtr::Reg(nd).is_scratch_cleared(), "C10/scratch-left-behind", "after {} a node on variable {} of a diagram of {} variables still holds scratch data", what, nd.var.value(), nv);
+        }
+        Ok(())
+    };
+    // the first answer of each kind is the answer on a freshly built diagram
+    let nodes0 = f.count_nodes();
+    scratch("count_nodes", f)?;
+    let (w1, w2) = (weights(0x111), weights(0x222));
+    let c1 = f.unsmoothed_wmc(&params(&w1)).value();
+    ensure!(c1 == closed(&w1), "C10/answer-depends-on-history:large-diagram", "first count of a diagram of {} nodes is {}; the closed form gives {}", nodes0, c1, closed(&w1));
+    scratch("a weighted count", f)?;
+    for (k, a) in probes.iter().enumerate() {
+        let got = f.evaluate(a);
+        ensure!(got == intended(a), "C10/answer-depends-on-history:large-diagram", "evaluate #{} on a diagram of {} nodes (after a count and {} evaluations) = {}, the function is {} there", k, nodes0, k, got, intended(a));
+    }
+    scratch("evaluate", f)?;
+    let c2 = f.unsmoothed_wmc(&params(&w2)).value();
+    ensure!(c2 == closed(&w2), "C10/answer-depends-on-history:large-diagram", "a second count, under other weights, of a diagram of {} nodes is {}; the closed form gives {} (the first count was {})", nodes0, c2, closed(&w2), c1);
+    let nodes1 = f.count_nodes();
+    ensure!(nodes1 == nodes0, "C10/answer-depends-on-history:large-diagram", "count_nodes returned {} at first and {} after other queries", nodes0, nodes1);
+    // a diagram sharing most of its nodes: the cofactor on the first variable; its count under the second table
+    let g = b.condition(f, VarLabel::new_usize(0), pol(0) != case.dual);
+    scratch("condition", f)?;
+    let b2 = RobddBuilder::<rsdd::builder::cache::AllIteTable<BddPtr>>::new(VarOrder::linear_order(nv));
+    let f2 = make(&b2, m, &pi, &pol, case.dual);
+    let g2 = b2.condition(f2, VarLabel::new_usize(0), pol(0) != case.dual);
+    let (cg, cg2) = (g.unsmoothed_wmc(&params(&w2)).value(), g2.unsmoothed_wmc(&params(&w2)).value());
+    ensure!(cg == cg2, "C10/answer-depends-on-history:large-diagram", "count of a cofactor sharing nodes with a queried diagram of {} nodes is {}; on a freshly built copy it is {}", nodes0, cg, cg2);
+    ensure!(g.count_nodes() == g2.count_nodes() && f.count_nodes() == f2.count_nodes(), "C10/answer-depends-on-history:large-diagram", "count_nodes of the diagram / its cofactor: {} / {} after queries, {} / {} on a freshly built copy", f.count_nodes(), g.count_nodes(), f2.count_nodes(), g2.count_nodes());
+    scratch("the last query", f)?;
+    scratch("the last query", g)?;
+    st.flag(
+        match nodes0 {
+            0..=4095 => "large.nodes.lt4096",
+            4096..=65535 => "large.nodes.4096-65535",
+            _ => "large.nodes.ge65536",
+        },
+        true,
+    );
+    if nodes0 >= 4096 {
+        st.mark_nontrivial();
+    }
+    Ok(())
+}
+
+impl SubCheckT for LargeDiagrams {
+    type Case = LargeCase;
+    const NAME: &'static str = "large_diagrams";
+    const RULE: &'static str = "OR_i (x_i & y_pi(i)) or AND_i (x_i | y_pi(i)) over 2m variables with every x above every y (m = 11..16: about 2^(m+1) nodes, up to 131 070), random polarities and pairing: count_nodes, a finite-field count, 24 evaluations, a count under other weights, count_nodes again, conditioning, the count of the cofactor (which shares most nodes) and node counts once more; counts equal the closed form, evaluations the function, repeated answers the first ones and those on a freshly built second copy, and after every call every node reports an empty scratch slot. Non-trivial: >= 4096 nodes";
+    fn cases(tier: Tier) -> u32 {
+        tier.pick(8, 96)
+    }
+    fn strategy(_tier: Tier) -> BoxedStrategy<LargeCase> {
+        (prop_oneof![1 => 11u8..=13, 1 => 14u8..=15, 2 => Just(16u8)], any::<u64>(), any::<bool>()).prop_map(|(m, seed, dual)| LargeCase { m, seed, dual }).boxed()
+    }
+    fn run(case: &LargeCase, st: &mut Stats) -> CaseResult {
+        run_large(case, st)
+    }
+}
+
 pub fn property() -> Property {
     Property {
         id: "C10",
-        subs: vec![sub::<BddQueries>(), sub::<SddQueries>(), sub::<ManyQueries>()],
+        subs: vec![sub::<BddQueries>(), sub::<SddQueries>(), sub::<ManyQueries>(), sub::<LargeDiagrams>()],
         fuzz: vec![FuzzSpec { target: "queries", runs: 10000, max_len: 400 }],
         assumptions: vec![
             "debug assertions are compiled in: a tripped debug_assert!(is_scratch_cleared()) is a violation",
